@@ -21,6 +21,9 @@ type VecQuery struct {
 	SearchSize int           `json:"searchSize,omitempty"`
 	Weight     *float32      `json:"weight,omitempty"`
 	Filter     *models.Query `json:"filter,omitempty"`
+	// Stray: the query also carries an options block of another index type (without a filter); only the
+	// block that matches the property's index is used
+	Stray bool `json:"stray,omitempty"`
 }
 
 // ToQuery builds the semadb query.
@@ -30,6 +33,12 @@ func (q VecQuery) ToQuery(schema models.IndexSchema) models.Query {
 		out.VectorFlat = &models.SearchVectorFlatOptions{Vector: q.Vector, Operator: models.OperatorNear, Limit: q.Limit, Filter: q.Filter, Weight: q.Weight}
 	} else {
 		out.VectorVamana = &models.SearchVectorVamanaOptions{Vector: q.Vector, Operator: models.OperatorNear, Limit: q.Limit, SearchSize: q.SearchSize, Filter: q.Filter, Weight: q.Weight}
+	}
+	if q.Stray {
+		out.Text = &models.SearchTextOptions{Value: "ring", Operator: models.OperatorContainsAny, Limit: 5}
+		if out.VectorFlat != nil {
+			out.VectorVamana = &models.SearchVectorVamanaOptions{Vector: q.Vector, Operator: models.OperatorNear, Limit: 5, SearchSize: 25}
+		}
 	}
 	return out
 }
